@@ -123,7 +123,7 @@ static void ev_cb(tp_event_p ev, tp_udata_p u) {
 	if (d->flags & TP_F_DISPATCH) d->enabled = 0;
 }
 
-enum { H_ADD = 1, H_ENABLE, H_DISABLE, H_DELETE, H_READY, H_CLOSE_PEER, H_SPIN, H_CHECK, H_ENABLE_NEWFLAGS, H_POISON, H_ADD_REFUSED_TIMER };
+enum { H_ADD = 1, H_ENABLE, H_DISABLE, H_DELETE, H_READY, H_CLOSE_PEER, H_SPIN, H_CHECK, H_ENABLE_NEWFLAGS, H_POISON, H_ADD_REFUSED_TIMER, H_REOPEN };
 typedef struct { uint8_t op, id, kind, flags; uint32_t arg; } hstep_t;
 static hstep_t *g_prog; static unsigned g_nprog, g_pc; static int g_external;
 static unsigned g_spin_left; static uint64_t g_check_deadline;
@@ -187,6 +187,22 @@ static void do_op(hstep_t *s) {
 			memset(&d->u, 0, sizeof(d->u));
 		}
 		break;
+	case H_REOPEN: { /* the application closed the registered descriptor without deleting the event (the kernel forgets the
+		* registration by itself), the next descriptor it opens gets the same number, and it is registered through the same
+		* tp_udata: a well-formed registration that must be accepted and fire.  Only done when no event of the old
+		* descriptor can be in flight (disabled, or an enabled read end with nothing to report). */
+		int old, t;
+		if (!d->registered || (d->kind != K_READ && d->kind != K_WRITE)) break;
+		if (d->enabled && !(d->kind == K_READ && d->pending == 0 && !d->peer_closed)) break;
+		old = d->fdr;
+		open_ident(d, d->kind, d->is_sock);
+		if (d->fdr < 0 || d->fdw < 0) { viol(V_OP_FAILED, s->id, errno); d->registered = d->enabled = 0; break; }
+		if (d->fdw == old) { t = fcntl(d->fdw, F_DUPFD_CLOEXEC, old + 1); if (t < 0) break; d->fdw = t; /* number "old" is re-pointed below */ }
+		if (d->fdr != old) { if (dup2(d->fdr, old) < 0) break; close(d->fdr); d->fdr = old; }
+		rc = tpt_ev_add_args(g_reg, (uint16_t)d->kind, (uint16_t)d->flags, 0, 0, &d->u);
+		if (rc) { viol(V_OP_FAILED, s->id, rc); d->registered = d->enabled = 0; }
+		else { d->registered = 1; d->enabled = 1; d->fired_since_enable = 0; }
+		break; }
 	case H_ENABLE:
 		if (!d->registered || d->kind == K_PROC) break;
 		e.event = (uint16_t)d->kind; e.flags = (uint16_t)d->flags; e.fflags = d->kind == K_TIMER ? TP_FF_T_MSEC : 0; e.data = d->kind == K_TIMER ? d->timer_ms : 0;
